@@ -304,16 +304,12 @@ Proof.
   intros L K. destruct (S h) eqn:E; [|reflexivity]. destruct (Hsec h E) as [_ H2]. specialize (H2 a L). contradiction.
 Qed.
 
-Lemma set_proc_view s0 id b : set_proc (view s0) id b = view (set_proc s0 id b).
-Proof. unfold set_proc. change (i_id (st_cur (view s0))) with (i_id (st_cur s0)). destruct (_ =? _); reflexivity. Qed.
-
 Lemma notify_via_view s0 id o mk vh val :
   notify_via (view s0) id o mk vh val = map_state view (notify_via s0 id o mk vh val).
 Proof.
   unfold notify_via. change (find_inst (view s0) id) with (find_inst s0 id).
   destruct (find_inst s0 id) as [i|]; [|reflexivity]. destruct (i_proc_locked i); [reflexivity|].
-  destruct o as [|x| | | | |g1 g2 g3|]; try reflexivity; unfold map_state; cbn [r_state r_out r_exc raise];
-    rewrite set_proc_view; reflexivity.
+  destruct o as [|x| | | | |g1 g2 g3|]; reflexivity.
 Qed.
 
 Lemma app_set_view d v hk : S (d + 1) = false ->
@@ -523,7 +519,7 @@ Qed.
 Lemma post_hook_static st hk act o out : same_static st (r_state (post_hook st hk act o out)).
 Proof.
   unfold post_hook. destruct (hook_act st hk act o) as [[st1 pd] res] eqn:E.
-  pose proof (hook_act_static _ _ _ _ _ _ _ E) as H. destruct res as [o'|]; [destruct o'|]; exact H.
+  pose proof (hook_act_static _ _ _ _ _ _ _ E) as H. destruct res as [o'|]; exact H.
 Qed.
 
 Lemma read_value_answer_static st hk op opa h mk normal : same_static st (r_state (read_value_answer st hk op opa h mk normal)).
@@ -564,12 +560,9 @@ Proof.
   dha ha_write st1 pd1 res1 E1. pose proof (hook_act_static _ _ _ _ _ _ _ E1) as S1.
   destruct res1 as [o1|]; [|exact S1].
   destruct o1 as [|x| | | | |g1 g2 g3|]; try (cbn [r_state prepend]; rewrite hook_error_state; exact S1).
-  - dha ha_written st3 pd3 res3 E3. pose proof (hook_act_static _ _ _ _ _ _ _ E3) as S3.
-    assert (S13 : same_static st st3) by (eapply same_static_trans; [exact S1|eapply same_static_trans; [apply store_static|exact S3]]).
-    destruct res3 as [o3|]; [|exact S13].
-    destruct o3 as [|y| | | | |k1 k2 k3|]; try exact S13; try (cbn [r_state prepend]; rewrite hook_error_state; exact S13).
-    eapply same_static_trans; [exact S13|]. eapply same_static_trans; [apply (store_static st3 h y)|apply post_hook_static].
+  - eapply same_static_trans; [exact S1|]. eapply same_static_trans; [apply (store_static st1 h val)|apply post_hook_static].
   - eapply same_static_trans; [exact S1|]. eapply same_static_trans; [apply (store_static st1 h x)|apply post_hook_static].
+  - destruct rsp; [exact S1|]. cbn [r_state prepend]. rewrite hook_error_state. exact S1.
 Qed.
 
 Lemma cccd_effects_static st hk h newv record out : same_static st (r_state (cccd_effects st hk h newv record out)).
@@ -645,7 +638,7 @@ Qed.
 
 Lemma handle_static st r hk : same_static st (r_state (handle V_fixed st r hk)).
 Proof.
-  destruct r; cbn [handle fx_rbt128 V_fixed]; try apply same_static_refl; try apply locked_static.
+  destruct r; cbn [handle fx_rbt128 V_fixed]; rewrite ?unparsed_state; try apply same_static_refl; try apply locked_static.
   - unfold h_mtu. cbn [r_state done]. destruct (23 <=? mtu); (split; [apply static_db_refl|auto]).
   - rewrite find_info_state. apply same_static_refl.
   - rewrite fbtv_state. apply same_static_refl.
@@ -653,11 +646,11 @@ Proof.
   - rewrite read_by_type_state. apply same_static_refl.
   - apply read_req_static.
   - apply read_blob_static.
-  - destruct hs; [apply same_static_refl|]. apply locked_static, same_static_refl.
+  - destruct hs; [rewrite unparsed_state; apply same_static_refl|]. apply locked_static, same_static_refl.
   - rewrite read_by_group_state. apply same_static_refl.
   - apply write_gen_static.
   - apply write_gen_static.
-  - unfold h_prepare. destruct (lookup h _); (split; [apply static_db_refl|auto]).
+  - unfold h_prepare. destruct (lookup h _) as [a0|]; [destruct (a_kind a0)|]; (split; [apply static_db_refl|auto]).
   - apply execute_static.
   - apply same_static_refl.
 Qed.
@@ -701,7 +694,7 @@ Qed.
 
 Lemma hook_assigns_inv hk h : hook_assigns hk h = false ->
   act_target (ha_read (h_acts hk)) h = false /\ act_target (ha_write (h_acts hk)) h = false
-  /\ act_target (ha_written (h_acts hk)) h = false /\ act_target (ha_written2 (h_acts hk)) h = false
+  /\ act_target (ha_written (h_acts hk)) h = false
   /\ act_target (ha_sub (h_acts hk)) h = false /\ act_target (ha_unsub (h_acts hk)) h = false.
 Proof.
   unfold hook_assigns. intros H. repeat (apply orb_false_iff in H; destruct H as [H ?]). repeat split; assumption.
@@ -728,7 +721,7 @@ Lemma post_hook_keeps_val st hk act o out h :
   act_target act h = false -> value_at (r_state (post_hook st hk act o out)) h = value_at st h.
 Proof.
   intros Ht. unfold post_hook. destruct (hook_act st hk act o) as [[st1 pd] res] eqn:E.
-  pose proof (hook_act_keeps_val _ _ _ _ _ _ _ h E Ht) as H. destruct res as [o'|]; [destruct o'|]; exact H.
+  pose proof (hook_act_keeps_val _ _ _ _ _ _ _ h E Ht) as H. destruct res as [o'|]; exact H.
 Qed.
 
 Lemma read_value_answer_keeps_val st hk op opa h0 mk normal h :
@@ -768,25 +761,21 @@ Lemma write_value_keeps st hk op opa h0 val rsp h :
   h <> h0 -> hook_assigns hk h = false ->
   value_at (r_state (write_value st hk op opa h0 val rsp)) h = value_at st h.
 Proof.
-  intros Hne Ha. apply hook_assigns_inv in Ha as (_ & T1 & T2 & T3 & _).
+  intros Hne Ha. apply hook_assigns_inv in Ha as (_ & T1 & T2 & _).
   unfold write_value. cbv zeta.
   dha ha_write st1 pd1 res1 E1. pose proof (hook_act_keeps_val _ _ _ _ _ _ _ h E1 T1) as V1.
   destruct res1 as [o1|]; [|exact V1].
   destruct o1 as [|x| | | | |g1 g2 g3|]; try (cbn [r_state prepend]; rewrite hook_error_state; exact V1).
-  - dha ha_written st3 pd3 res3 E3. pose proof (hook_act_keeps_val _ _ _ _ _ _ _ h E3 T2) as V3.
-    rewrite value_at_update_ne in V3 by exact Hne.
-    assert (V13 : value_at st3 h = value_at st h) by congruence.
-    destruct res3 as [o3|]; [|exact V13].
-    destruct o3 as [|y| | | | |k1 k2 k3|]; try exact V13; try (cbn [r_state prepend]; rewrite hook_error_state; exact V13).
-    rewrite post_hook_keeps_val by exact T3. rewrite value_at_update_ne by exact Hne. exact V13.
   - rewrite post_hook_keeps_val by exact T2. rewrite value_at_update_ne by exact Hne. exact V1.
+  - rewrite post_hook_keeps_val by exact T2. rewrite value_at_update_ne by exact Hne. exact V1.
+  - destruct rsp; [exact V1|]. cbn [r_state prepend]. rewrite hook_error_state. exact V1.
 Qed.
 
 Lemma cccd_effects_keeps st hk h0 newv record out h :
   h <> h0 -> hook_assigns hk h = false ->
   value_at (r_state (cccd_effects st hk h0 newv record out)) h = value_at st h.
 Proof.
-  intros Hne Ha. apply hook_assigns_inv in Ha as (_ & _ & _ & _ & T5 & T6). unfold cccd_effects.
+  intros Hne Ha. apply hook_assigns_inv in Ha as (_ & _ & _ & T5 & T6). unfold cccd_effects.
   pose proof (value_at_update_ne st h0 newv h Hne) as E1.
   assert (E2 : forall d n i, value_at (with_db (with_db st (update h0 (fun a => set_value a newv) (st_db st)))
                   (update d (fun c => set_cbs c (n c) (i c)) (update h0 (fun a => set_value a newv) (st_db st)))) h = value_at st h).
@@ -864,7 +853,7 @@ Proof.
   intros Hv Hw Hha. assert (Hp : protected (with_lock st true) h) by (split; assumption).
   pose proof (hook_assigns_inv hk h Hha) as (T1 & _).
   unfold server_step, server_step_v. cbn [fst].
-  destruct r; cbn [handle fx_rbt128 V_fixed]; try reflexivity; try apply locked_keeps.
+  destruct r; cbn [handle fx_rbt128 V_fixed]; rewrite ?unparsed_state; try reflexivity; try apply locked_keeps.
   - unfold h_mtu. cbn [r_state done]. destruct (23 <=? mtu); reflexivity.
   - rewrite find_info_state. reflexivity.
   - rewrite fbtv_state. reflexivity.
@@ -872,11 +861,11 @@ Proof.
   - rewrite read_by_type_state. reflexivity.
   - apply read_req_keeps_val, T1.
   - apply read_blob_keeps_val, T1.
-  - destruct hs; [reflexivity|]. apply locked_keeps. reflexivity.
+  - destruct hs; [rewrite unparsed_state; reflexivity|]. apply locked_keeps. reflexivity.
   - rewrite read_by_group_state. reflexivity.
   - apply write_gen_keeps; [exact Hp|exact Hha].
   - apply write_gen_keeps; [exact Hp|exact Hha].
-  - unfold h_prepare. destruct (lookup h0 _); reflexivity.
+  - unfold h_prepare. destruct (lookup h0 _) as [a0|]; [destruct (a_kind a0)|]; reflexivity.
   - unfold h_execute. cbn [fx_exec_clear fx_exec_flags V_fixed].
     destruct (flags =? 0); [reflexivity|]. destruct (flags =? 1); [|reflexivity].
     pose proof (exec_loop_keeps h (i_queues (st_cur (with_lock st true))) _ Hp) as H.
@@ -927,7 +916,7 @@ Qed.
 
 Lemma acts_avoid_inv hk : acts_avoid S hk = true ->
   act_avoids S (ha_read (h_acts hk)) = true /\ act_avoids S (ha_write (h_acts hk)) = true
-  /\ act_avoids S (ha_written (h_acts hk)) = true /\ act_avoids S (ha_written2 (h_acts hk)) = true
+  /\ act_avoids S (ha_written (h_acts hk)) = true
   /\ act_avoids S (ha_sub (h_acts hk)) = true /\ act_avoids S (ha_unsub (h_acts hk)) = true.
 Proof. unfold acts_avoid. cbv zeta. intros H. repeat (apply andb_true_iff in H as [H ?]). repeat split; assumption. Qed.
 
@@ -935,13 +924,13 @@ Lemma post_hook_view st hk act o out : ni_ok st -> act_avoids S act = true ->
   post_hook (view st) hk act o out = map_state view (post_hook st hk act o out).
 Proof.
   intros [Hs Hsec] Ha. unfold post_hook. rewrite (hook_act_view S st Hs Hsec hk act o Ha).
-  destruct (hook_act st hk act o) as [[st1 pd] res]. destruct res as [o'|]; [destruct o'|]; reflexivity.
+  destruct (hook_act st hk act o) as [[st1 pd] res]. destruct res as [o'|]; reflexivity.
 Qed.
 
 Lemma write_value_view st hk op opa h val rsp : S h = false -> ni_ok st -> acts_avoid S hk = true ->
   write_value (view st) hk op opa h val rsp = map_state view (write_value st hk op opa h val rsp).
 Proof.
-  intros Hsh Hok Ha. apply acts_avoid_inv in Ha as (_ & A1 & A2 & A3 & _).
+  intros Hsh Hok Ha. apply acts_avoid_inv in Ha as (_ & A1 & A2 & _).
   destruct Hok as [Hs Hsec]. unfold write_value. cbv zeta.
   rewrite (hook_act_view S st Hs Hsec hk _ (h_write hk) A1).
   destruct (hook_act st hk (ha_write (h_acts hk)) (h_write hk)) as [[st1 pd1] res1] eqn:E1.
@@ -949,23 +938,16 @@ Proof.
   destruct res1 as [o1|]; [|reflexivity].
   destruct o1 as [|x| | | | |g1 g2 g3|]; try (rewrite hook_error_view; reflexivity).
   - rewrite (store_view st1 h val Hsh).
-    pose proof (ni_ok_static _ _ (store_static st1 h val) Hok1) as [Hs2 Hsec2].
-    rewrite (hook_act_view S _ Hs2 Hsec2 hk _ (h_written hk) A2).
-    destruct (hook_act (with_db st1 (update h (fun a => set_value a val) (st_db st1))) hk (ha_written (h_acts hk)) (h_written hk))
-      as [[st3 pd3] res3] eqn:E3.
-    pose proof (ni_ok_static _ _ (hook_act_static _ _ _ _ _ _ _ E3) (conj Hs2 Hsec2)) as Hok3.
-    destruct res3 as [o3|]; [|reflexivity].
-    destruct o3 as [|y| | | | |k1 k2 k3|]; try reflexivity; try (rewrite hook_error_view; reflexivity).
-    rewrite (store_view st3 h y Hsh).
-    apply post_hook_view; [apply (ni_ok_static _ _ (store_static st3 h y) Hok3)|exact A3].
+    apply post_hook_view; [apply (ni_ok_static _ _ (store_static st1 h val) Hok1)|exact A2].
   - rewrite (store_view st1 h x Hsh).
     apply post_hook_view; [apply (ni_ok_static _ _ (store_static st1 h x) Hok1)|exact A2].
+  - destruct rsp; [reflexivity|]. rewrite hook_error_view. reflexivity.
 Qed.
 
 Lemma cccd_effects_view st hk h newv record out : S h = false -> ni_ok st -> acts_avoid S hk = true ->
   cccd_effects (view st) hk h newv record out = map_state view (cccd_effects st hk h newv record out).
 Proof.
-  intros Hs Hok Ha. apply acts_avoid_inv in Ha as (_ & _ & _ & _ & A5 & A6). unfold cccd_effects.
+  intros Hs Hok Ha. apply acts_avoid_inv in Ha as (_ & _ & _ & A5 & A6). unfold cccd_effects.
   rewrite (store_view st h newv Hs).
   change (st_db (view st)) with (map er (st_db st)). rewrite owner_decl_er.
   destruct (un_le16_2 newv) as [cfg|]; [|reflexivity].
@@ -1022,8 +1004,11 @@ Qed.
 Lemma prepare_view st h off val : h_prepare (view st) h off val = map_state view (h_prepare st h off val).
 Proof.
   unfold h_prepare. change (st_db (view st)) with (map er (st_db st)). rewrite lookup_er.
-  destruct (lookup h (st_db st)); reflexivity.
+  destruct (lookup h (st_db st)) as [a|]; cbn [option_map]; [rewrite er_kind; destruct (a_kind a)|]; reflexivity.
 Qed.
+
+Lemma unparsed_view st o : unparsed (view st) o = map_state view (unparsed st o).
+Proof. unfold unparsed. destruct (req_opcode o); reflexivity. Qed.
 
 Lemma apply_writes_view h ws : S h = false -> forall db,
   apply_writes h ws (map er db) = (map er (fst (apply_writes h ws db)), snd (apply_writes h ws db)).
@@ -1104,13 +1089,14 @@ Proof.
   - rewrite (read_by_type_view S _ s e). apply relabel_map_state, read_by_type_state.
   - apply (read_req_view S _ Hs' Hsec' hk h A1).
   - apply (read_blob_view S _ Hs' Hsec' hk h off A1).
-  - destruct hs; [reflexivity|]. apply locked_view. reflexivity.
+  - destruct hs; [apply unparsed_view|]. apply locked_view. reflexivity.
   - rewrite (read_by_group_view S _ s e). apply relabel_map_state, read_by_group_state.
   - apply write_gen_view; try assumption. cbn [ni_allowed] in Hal. apply negb_true_iff in Hal. exact Hal.
   - apply write_gen_view; try assumption. cbn [ni_allowed] in Hal. apply negb_true_iff in Hal. exact Hal.
   - apply prepare_view.
   - apply execute_view. exact Hq.
   - reflexivity.
+  - apply unparsed_view.
 Qed.
 
 End NI2.
@@ -1127,7 +1113,7 @@ Qed.
 Lemma post_hook_qh st hk act o out : qh (r_state (post_hook st hk act o out)) = qh st.
 Proof.
   unfold post_hook. destruct (hook_act st hk act o) as [[st1 pd] res] eqn:E.
-  pose proof (hook_act_qh _ _ _ _ _ _ _ E) as H. destruct res as [o'|]; [destruct o'|]; exact H.
+  pose proof (hook_act_qh _ _ _ _ _ _ _ E) as H. destruct res as [o'|]; exact H.
 Qed.
 
 Lemma read_value_answer_qh st hk op opa h mk normal : qh (r_state (read_value_answer st hk op opa h mk normal)) = qh st.
@@ -1165,12 +1151,9 @@ Proof.
   dha ha_write st1 pd1 res1 E1. pose proof (hook_act_qh _ _ _ _ _ _ _ E1) as Q1.
   destruct res1 as [o1|]; [|exact Q1].
   destruct o1 as [|x| | | | |g1 g2 g3|]; try (cbn [r_state prepend]; rewrite hook_error_state; exact Q1).
-  - dha ha_written st3 pd3 res3 E3. pose proof (hook_act_qh _ _ _ _ _ _ _ E3) as Q3.
-    assert (Q13 : qh st3 = qh st) by (rewrite Q3; exact Q1).
-    destruct res3 as [o3|]; [|exact Q13].
-    destruct o3 as [|y| | | | |k1 k2 k3|]; try exact Q13; try (cbn [r_state prepend]; rewrite hook_error_state; exact Q13).
-    rewrite post_hook_qh. exact Q13.
   - rewrite post_hook_qh. exact Q1.
+  - rewrite post_hook_qh. exact Q1.
+  - destruct rsp; [exact Q1|]. cbn [r_state prepend]. rewrite hook_error_state. exact Q1.
 Qed.
 
 Lemma cccd_effects_qh st hk h newv record out : qh (r_state (cccd_effects st hk h newv record out)) = qh st.
@@ -1230,7 +1213,7 @@ Definition prep_handle (r : att_request) : list N := match r with PrepareWrite h
 
 Lemma handle_qh st r hk : incl (qh (r_state (handle V_fixed st r hk))) (prep_handle r ++ qh st).
 Proof.
-  destruct r; cbn [handle fx_rbt128 V_fixed prep_handle]; try apply incl_refl; try apply locked_qh_incl;
+  destruct r; cbn [handle fx_rbt128 V_fixed prep_handle]; rewrite ?unparsed_state; try apply incl_refl; try apply locked_qh_incl;
     change (qh st) with (qh (with_lock st true)).
   - unfold h_mtu. destruct (23 <=? mtu); apply incl_refl.
   - rewrite find_info_state. apply incl_refl.
@@ -1239,11 +1222,12 @@ Proof.
   - rewrite read_by_type_state. apply incl_refl.
   - rewrite read_req_qh. apply incl_refl.
   - rewrite read_blob_qh. apply incl_refl.
-  - destruct hs; [apply incl_refl|]. unfold locked. destruct (tx_locked st); apply incl_refl.
+  - destruct hs; [rewrite unparsed_state; apply incl_refl|]. unfold locked. destruct (tx_locked st); apply incl_refl.
   - rewrite read_by_group_state. apply incl_refl.
   - rewrite write_gen_qh. apply incl_refl.
   - rewrite write_gen_qh. apply incl_refl.
-  - unfold h_prepare. destruct (lookup h _); [|apply incl_appr, incl_refl].
+  - unfold h_prepare. destruct (lookup h _) as [a0|]; [|apply incl_appr, incl_refl].
+    destruct (a_kind a0); try (apply incl_appr, incl_refl).
     cbn [r_state done]. unfold qh. cbn. apply queue_add_qh.
   - unfold h_execute. cbn [fx_exec_clear fx_exec_flags V_fixed].
     destruct (flags =? 0); [intros x []|]. destruct (flags =? 1); [|apply incl_refl].
@@ -1615,7 +1599,7 @@ Proof.
   assert (P : Forall (fun p => notif_ok st0 t p = true) (out ++ pd)).
   { apply Forall_app. split; [exact Ho|]. eapply Forall_impl; [|exact P1]. intros p Hp. cbv beta in Hp. rewrite (notif_ok_conn st0 st t p Hc) in Hp.
     exact Hp. }
-  destruct res as [o'|]; [destruct o'|]; split; assumption.
+  destruct res as [o'|]; split; assumption.
 Qed.
 
 Lemma hook_error_all_rsp st op opa h o : Forall (fun p => is_rsp p = true) (r_out (hook_error st op opa h o)).
@@ -1694,25 +1678,14 @@ Proof.
   destruct o1 as [|x| | | | |g1 g2 g3|];
     try (unfold inv_res; cbn [r_state r_out prepend]; rewrite hook_error_state; split; [exact I1|];
          apply Forall_app; split; [exact P1|apply rsp_notif_ok, hook_error_all_rsp]).
-  - destruct (store_step st1 t h val W1 I1 K1 Hv) as (W2 & I2 & C2 & K2).
-    dha ha_written st3 pd3 res3 E3.
-    destruct (hook_act_inv _ _ _ _ _ _ _ _ W2 I2 A2 E3) as (W3 & I3 & P3 & C3).
-    pose proof (hook_act_kinds _ _ _ _ _ _ _ E3) as Kd3.
-    assert (K3 : option_map a_kind (lookup h (st_db st3)) = Some KValue) by (rewrite Kd3; exact K2).
-    assert (C13 : st_connected st3 = st_connected st) by congruence.
-    assert (P3' : Forall (fun p => notif_ok st t p = true) pd3).
-    { eapply Forall_impl; [|exact P3]. intros p Hp. rewrite <- Hp. symmetry. apply notif_ok_conn. cbn. congruence. }
-    assert (Po3 : Forall (fun p => notif_ok st t p = true) (pd1 ++ rsp ++ pd3)) by (repeat (apply Forall_app; split); assumption).
-    destruct res3 as [o3|]; [|split; assumption].
-    destruct o3 as [|y| | | | |k1 k2 k3|]; try (split; assumption);
-      try (unfold inv_res; cbn [r_state r_out prepend]; rewrite hook_error_state; split; [exact I3|];
-           apply Forall_app; split; [exact Po3|apply rsp_notif_ok, hook_error_all_rsp]).
-    rewrite (hook_act_override _ _ _ _ _ _ _ _ E3 eq_refl) in Hwn.
-    destruct (store_step st3 t h y W3 I3 K3 Hwn) as (W4 & I4 & C4 & _).
-    apply post_hook_inv; [cbn; congruence|exact W4|exact I4|exact A3|apply Forall_app; split; assumption].
+  - destruct (store_step st1 t h val W1 I1 K1 Hv) as (W2 & I2 & C2 & _).
+    apply post_hook_inv; [cbn; congruence|exact W2|exact I2|exact A2|apply Forall_app; split; assumption].
   - rewrite (hook_act_override _ _ _ _ _ _ _ _ E1 eq_refl) in Hw.
     destruct (store_step st1 t h x W1 I1 K1 Hw) as (W2 & I2 & C2 & _).
     apply post_hook_inv; [cbn; congruence|exact W2|exact I2|exact A2|apply Forall_app; split; assumption].
+  - destruct rsp; [split; assumption|].
+    unfold inv_res; cbn [r_state r_out prepend]; rewrite hook_error_state; split; [exact I1|].
+    apply Forall_app; split; [exact P1|apply rsp_notif_ok, hook_error_all_rsp].
 Qed.
 
 Lemma apply_writes_vo h ws : forall db a0, lookup h db = Some a0 -> a_kind a0 = KValue ->
@@ -1980,15 +1953,17 @@ Proof.
     destruct (r_exc (body (with_lock st true))) as [[]|]; cbn [r_state r_out]; (split; [|exact O]);
       try apply keeps_lock; apply keeps_from_lock, K. }
   assert (T : keeps st st /\ Forall (fun p => is_rsp p = true) (@nil att_pdu)) by (split; [apply keeps_refl|constructor]).
-  destruct r; try discriminate Hr; cbn [handle fx_rbt128 V_fixed]; try exact T; try apply L; try intros s0.
+  assert (U : forall o, keeps st (r_state (unparsed st o)) /\ Forall (fun p => is_rsp p = true) (r_out (unparsed st o))).
+  { intros o. unfold unparsed. destruct (req_opcode o); (split; [apply keeps_refl|repeat constructor]). }
+  destruct r; try discriminate Hr; cbn [handle fx_rbt128 V_fixed]; try exact T; try apply U; try apply L; try intros s0.
   - unfold h_mtu. destruct (23 <=? mtu); (split; [split; [apply vo_refl|auto]|repeat constructor]).
   - rewrite find_info_state. split; [apply keeps_refl|]. unfold h_find_info. break; repeat constructor.
   - rewrite fbtv_state. split; [apply keeps_refl|]. unfold h_fbtv. break; repeat constructor.
   - rewrite read_by_type_state. split; [apply keeps_refl|]. unfold h_read_by_type. break; repeat constructor.
   - rewrite read_by_type_state. split; [apply keeps_refl|]. unfold h_read_by_type. break; repeat constructor.
-  - destruct hs; [exact T|]. apply L. intros s1. split; [apply keeps_refl|repeat constructor].
+  - destruct hs; [apply U|]. apply L. intros s1. split; [apply keeps_refl|repeat constructor].
   - rewrite read_by_group_state. split; [apply keeps_refl|]. unfold h_read_by_group. break; repeat constructor.
-  - unfold h_prepare. destruct (lookup h _); (split; [split; [apply vo_refl|auto]|repeat constructor]).
+  - unfold h_prepare. destruct (lookup h _) as [a0|]; [destruct (a_kind a0)|]; (split; [split; [apply vo_refl|auto]|repeat constructor]).
   - unfold h_execute. cbn [fx_exec_clear fx_exec_flags V_fixed].
     destruct (flags =? 0); [split; [split; [apply vo_refl|auto]|repeat constructor]|].
     destruct (flags =? 1); [|split; [apply keeps_refl|repeat constructor]].
@@ -2014,9 +1989,11 @@ Lemma handle_inv st t r hk :
 Proof.
   intros Hwf Hi Hc Hr Hh. cbn [ref_step]. rewrite Hc. cbn [andb].
   destruct (tx_locked st) eqn:Hl; cbn [negb].
-  { (* locked: nothing happens *)
-    destruct r; cbn [handle fx_rbt128 V_fixed]; unfold locked; rewrite ?Hl; try (split; [exact Hi|constructor]).
-    destruct hs; (split; [exact Hi|constructor]). }
+  { (* locked: only the ATT layer itself answers *)
+    assert (UI : forall o, inv_res st t (unparsed st o)).
+    { intros o. unfold inv_res, unparsed. destruct (req_opcode o); cbn [r_state r_out err done]; (split; [exact Hi|repeat constructor]). }
+    destruct r; cbn [handle fx_rbt128 V_fixed]; unfold locked; rewrite ?Hl; try (split; [exact Hi|constructor]); try apply UI.
+    destruct hs; [apply UI|split; [exact Hi|constructor]]. }
   assert (Hi' : sub_inv (with_lock st true) t) by (eapply sub_inv_same; [| | |exact Hi]; reflexivity).
   assert (Hwf' : wf_state (with_lock st true) = true) by exact Hwf.
   unfold wf_request in Hr. apply andb_true_iff in Hr as [_ Hr].
